@@ -281,3 +281,73 @@ Proof.
   rewrite gen_form_eq_form by assumption.
   apply form_positive_definite; try assumption. intros p Hp; apply Hn; exact Hp.
 Qed.
+
+(* ---- direct solver (take): NODE_BUILD_SOLVER_MATRIX_TAKE with the slot tables of matrixStencil.cpp, as T3 regenerates them ---- *)
+Section AssemblyTakeTie.
+  Variable nr nth : Z.
+  Variable h k rad : Z -> R.
+  Variable arr att art det : Z -> Z -> R.
+  Variable beta : Z -> R.
+  Variable dirbc : bool.
+  Hypothesis Hnr : (4 <= nr)%Z.
+  Hypothesis Hnth : (2 <= nth)%Z.
+
+  Notation asm := (@gen_build_solver_matrix_take Rsc nr nth h k rad arr att art det beta dirbc).
+  Definition mw_row (w : @mwrite Rsc) : Z * Z := fst (fst (fst w)).
+  Definition mw_slot (w : @mwrite Rsc) : Z := snd (fst (fst w)).
+  Definition mw_col (w : @mwrite Rsc) : Z * Z := snd (fst w).
+  Definition mw_val (w : @mwrite Rsc) : R := snd w.
+
+  Lemma quot_bounds' : (0 <= Z.quot nth 2 <= nth)%Z.
+  Proof. split; [apply Z.quot_pos; lia|]. apply Z.quot_le_upper_bound; lia. Qed.
+
+  Ltac wraps3 j Hj :=
+    rewrite ?wrapT_idem;
+    rewrite ?(wrapT_small nth j Hj);
+    rewrite ?(wrapT_wrap1 nth (j - 1)) by lia;
+    rewrite ?(wrapT_wrap1 nth (j + 1)) by lia;
+    rewrite ?(wrapT_wrap1 nth (j + Z.quot nth 2)) by (pose proof quot_bounds'; lia);
+    rewrite ?(wrap1_small nth j Hj).
+
+  Ltac classes i :=
+    destruct (Z.ltb_spec 0 i); destruct (Z.ltb_spec i (nr - 1)); destruct (Z.ltb_spec 1 i); destruct (Z.ltb_spec i (nr - 2));
+    destruct (Z.eqb_spec i 0); destruct (Z.eqb_spec i 1); destruct (Z.eqb_spec i (nr - 1)); destruct (Z.eqb_spec i (nr - 2));
+    try lia; destruct dirbc; cbn [andb orb negb app].
+
+  (* every entry the macro writes for node (i,j) goes into row (i,j); the (column, value) pairs are, in program order, the
+     documented stencil row of the model *)
+  Theorem gen_asm_take_is_model : forall i j, (0 <= i < nr)%Z -> (0 <= j < nth)%Z ->
+    Forall (fun w => mw_row w = (i, j)) (asm i j) /\
+    map (fun w => (mw_col w, mw_val w)) (asm i j) = @A_take_row Rsc nr nth h k (rad 0%Z) arr att art det beta dirbc i j.
+  Proof.
+    intros i j Hi Hj. unfold gen_build_solver_matrix_take, A_take_row. cbv zeta. wraps3 j Hj.
+    classes i; (split; [repeat constructor|]);
+      unfold mw_col, mw_val, c1, c2, c3, c4, mass, kk, across, wt; cbn [map fst snd]; wraps3 j Hj;
+      repeat match goal with
+             | |- cons _ _ = cons _ _ => apply f_equal2; [apply f_equal2; [reflexivity|rsc; ring]|]
+             | |- nil = nil => reflexivity
+             end.
+  Qed.
+
+  Fixpoint distinctb (l : list Z) : bool :=
+    match l with [] => true | x :: r => negb (existsb (Z.eqb x) r) && distinctb r end.
+  Lemma distinctb_NoDup l : distinctb l = true -> NoDup l.
+  Proof.
+    induction l as [|x r IH]; cbn [distinctb]; intros H; [constructor|].
+    apply andb_true_iff in H. destruct H as [H1 H2]. constructor; [|apply IH; exact H2].
+    intros Hin. apply negb_true_iff in H1. assert (existsb (Z.eqb x) r = true); [|congruence].
+    apply existsb_exists. exists x. split; [exact Hin|apply Z.eqb_refl].
+  Qed.
+
+  (* the slots used within a row are pairwise distinct and lie inside the row's allocation (getStencilSize) *)
+  Theorem gen_asm_take_slots : forall i j, (0 <= i < nr)%Z -> (0 <= j < nth)%Z ->
+    NoDup (map mw_slot (asm i j)) /\
+    Forall (fun w => (0 <= mw_slot w < @gen_take_get_stencil_size nr dirbc i)%Z) (asm i j) /\
+    Z.of_nat (length (asm i j)) = @gen_take_get_stencil_size nr dirbc i.
+  Proof.
+    intros i j Hi Hj. unfold gen_build_solver_matrix_take, gen_take_get_stencil, gen_take_get_stencil_size. cbv zeta.
+    classes i; unfold mw_slot; cbn [map fst snd stencil_slot List.nth gen_stencil_interior_ gen_stencil_across_origin_ gen_stencil_DB_
+                                     gen_stencil_next_inner_DB_ gen_stencil_next_outer_DB_ length];
+      (split; [apply distinctb_NoDup; reflexivity|split; [repeat (apply Forall_cons; [cbn [fst snd]; lia|]); apply Forall_nil|reflexivity]]).
+  Qed.
+End AssemblyTakeTie.
